@@ -489,3 +489,79 @@ Proof.
     + injection Hs as <-. apply Fin.
     + replace (iopcode ir =? 212) with true in Hs by lia. injection Hs as <-. apply Fin.
 Qed.
+
+(* ---- moves and unary operations at every size, register destination ---- *)
+Definition unary_result (opc a : Z) : option Z :=
+  if (opc =? 132) || (opc =? 134) || (opc =? 135) then Some a                       (* MOVW / MOVH / MOVB *)
+  else if (opc =? 136) || (opc =? 138) || (opc =? 139) then Some (not32 a)           (* MCOMW / H / B *)
+  else if (opc =? 140) || (opc =? 142) || (opc =? 143) then Some (w32 (not32 a + 1)) (* MNEGW / H / B *)
+  else None.
+
+Lemma exec_mneg ir m : iopcode ir = 140 \/ iopcode ir = 142 \/ iopcode ir = 143 ->
+  exec ir m = bind (read_op ir 0 m) (fun a m => bind (write_op ir 1 (w32 (not32 a + 1)) m) (fun _ m =>
+    Ok (ilen ir) (set_v_flag_op (w32 (not32 a + 1)) (op1 ir) (set_c false (set_nz_flags (w32 (not32 a + 1)) (op1 ir) m))))).
+Proof. intros [H|[H|H]]; unfold exec; rewrite H; reflexivity. Qed.
+
+Theorem unary_sized_final ir m a r res :
+  unary_result (iopcode ir) a = Some res -> read_op ir 0 m = Ok a m ->
+  omode (get_op ir 1) = MRegister -> oreg (get_op ir 1) = Some r -> 0 <= r <= 10 -> otype (get_op ir 1) <> DNone ->
+  let t := otype (get_op ir 1) in
+  exists m', exec ir m = Ok (ilen ir) m'
+    /\ word_outcome m m' r res (Z.testbit res (sign_bit t)) (trunc_to t res =? 0) (too_big t res) false.
+Proof.
+  intros Hs R0 Hm Hr Hr10 Ht t. unfold unary_result in Hs.
+  assert (Fin : forall x, exists m', bind (write_op ir 1 x m) (fun _ m0 =>
+            Ok (ilen ir) (set_v_flag_op x (op1 ir) (set_c false (set_nz_flags x (op1 ir) m0)))) = Ok (ilen ir) m'
+            /\ word_outcome m m' r x (Z.testbit x (sign_bit t)) (trunc_to t x =? 0) (too_big t x) false).
+  { intros x. rewrite (write_reg ir 1 r x m Hm Hr). cbn [bind]. eexists. split; [reflexivity|].
+    change (op1 ir) with (get_op ir 1). rewrite set_nz_flags_sized, set_v_flag_op_sized by exact Ht. fold t.
+    destruct (nzvc_after (Z.testbit x (sign_bit t)) (trunc_to t x =? 0) (too_big t x) false (setR m r x)) as [A [B [C D]]].
+    constructor; auto.
+    - rewrite R_flags_other by lia. apply R_setR_same.
+    - intros i Hi N1 N2. rewrite R_flags_other by lia. apply R_setR_other; lia. }
+  destruct ((iopcode ir =? 132) || (iopcode ir =? 134) || (iopcode ir =? 135)) eqn:E1.
+  - injection Hs as <-. rewrite exec_movx by lia. rewrite R0. cbn [bind]. apply Fin.
+  - destruct ((iopcode ir =? 136) || (iopcode ir =? 138) || (iopcode ir =? 139)) eqn:E2.
+    + injection Hs as <-. rewrite exec_mcom by lia. rewrite R0. cbn [bind]. apply Fin.
+    + destruct ((iopcode ir =? 140) || (iopcode ir =? 142) || (iopcode ir =? 143)) eqn:E3; [|discriminate].
+      injection Hs as <-. rewrite exec_mneg by lia. rewrite R0. cbn [bind]. apply Fin.
+Qed.
+
+(* CLR: the destination becomes 0, Z = 1, N = C = V = 0 *)
+Theorem clr_final ir m r :
+  iopcode ir = 128 \/ iopcode ir = 130 \/ iopcode ir = 131 ->
+  omode (get_op ir 0) = MRegister -> oreg (get_op ir 0) = Some r -> 0 <= r <= 10 ->
+  exists m', exec ir m = Ok (ilen ir) m' /\ word_outcome m m' r 0 false true false false.
+Proof.
+  intros Ho Hm Hr Hr10. rewrite exec_clr by exact Ho. rewrite (write_reg ir 0 r 0 m Hm Hr). cbn [bind].
+  eexists. split; [reflexivity|].
+  destruct (nzvc_after false true false false (setR m r 0)) as [A [B [C D]]].
+  constructor; auto.
+  - rewrite R_flags_other by lia. apply R_setR_same.
+  - intros i Hi N1 N2. rewrite R_flags_other by lia. apply R_setR_other; lia.
+Qed.
+
+(* CMPW a, b and TSTW a: only the condition codes change; Z = equality, N = signed order, C = unsigned order *)
+Theorem cmpw_final ir m a b :
+  iopcode ir = 60 -> read_op ir 0 m = Ok a m -> read_op ir 1 m = Ok b m ->
+  exists m', exec ir m = Ok (ilen ir) m'
+    /\ flag F_Z m' = (b =? a) /\ flag F_N m' = (s32 b <? s32 a) /\ flag F_C m' = (b <? a) /\ flag F_V m' = false
+    /\ (forall i, 0 <= i <= 15 -> i <> 11 -> R m' i = R m i) /\ mbus m' = mbus m.
+Proof.
+  intros Ho R0 R1. rewrite exec_cmpw by exact Ho. rewrite R0. cbn [bind]. rewrite R1. cbn [bind].
+  eexists. split; [reflexivity|].
+  split; [flags; reflexivity|]. split; [flags; reflexivity|]. split; [flags; reflexivity|]. split; [flags; reflexivity|].
+  split; [|reflexivity]. intros i Hi N. unfold set_v, set_c, set_z, set_n. rewrite !R_setf_other by lia. reflexivity.
+Qed.
+
+Theorem tstw_final ir m a :
+  iopcode ir = 40 -> read_op ir 0 m = Ok a m ->
+  exists m', exec ir m = Ok (ilen ir) m'
+    /\ flag F_Z m' = (a =? 0) /\ flag F_N m' = (s32 a <? 0) /\ flag F_C m' = false /\ flag F_V m' = false
+    /\ (forall i, 0 <= i <= 15 -> i <> 11 -> R m' i = R m i) /\ mbus m' = mbus m.
+Proof.
+  intros Ho R0. rewrite exec_tstw by exact Ho. rewrite R0. cbn [bind].
+  eexists. split; [reflexivity|].
+  split; [flags; reflexivity|]. split; [flags; reflexivity|]. split; [flags; reflexivity|]. split; [flags; reflexivity|].
+  split; [|reflexivity]. intros i Hi N. unfold set_v, set_c, set_z, set_n. rewrite !R_setf_other by lia. reflexivity.
+Qed.
